@@ -316,6 +316,68 @@ class World:
             self.funcs[name] = d
             self.kinds[name] = 'sync'
 
+    # ----- composition scenarios: shared contract objects, chain, foreign decorators -----
+    def define_obj(self, sc):
+        import functools
+        from deal._runtime._validators import Validator
+        from deal._runtime._has_patcher import HasPatcher
+        self.bodies, self.kinds, self.cid_of = {}, {}, {}
+        decs = {}
+        for cid, it in sc['contracts']:
+            k = it[0]
+            if k in ('pre', 'post', 'ensure'):
+                v = dict(it[1], id=cid)
+                dec = getattr(deal, k)(self.mk_validator(v), message=v['msg'], exception=self.excspec(v['exc']))
+            elif k == 'raises':
+                dec = deal.raises(*[self.cls(c) for c in it[2]], message=it[3], exception=self.excspec(it[4]))
+            elif k == 'reason':
+                v = dict(it[2], id=cid)
+                dec = deal.reason(self.cls(it[1]), self.mk_validator(v), message=v['msg'], exception=self.excspec(v['exc']))
+            elif k == 'has':
+                dec = deal.has(*it[2], message=it[3], exception=self.excspec(it[4]))
+            else: raise ValueError(k)
+            for cell in dec.__closure__ or ():
+                if isinstance(cell.cell_contents, (Validator, HasPatcher)):
+                    self.cid_of[id(cell.cell_contents)] = cid
+            decs[cid] = dec
+        self.keep.append(decs)
+        def foreign(tag, wraps):
+            def deco(fn):
+                def inner(*args, **kwargs):
+                    self.log.append(f'F {tag}')
+                    return fn(*args, **kwargs)
+                return functools.wraps(fn)(inner) if wraps else inner
+            return deco
+        for f in sc['funs']:
+            ns = {'__w': self, '__name': f['name']}
+            st = self.sig_text(f['sig'], ns)
+            names = [p[0] for p in f['sig']]
+            envexpr = '{' + ', '.join(f'{n!r}: {n}' for n in names) + '}'
+            exec(f'def {f["name"]}({st}):\n    return __w.run_sync(__name, {envexpr})\n', ns)
+            fn = ns[f['name']]
+            self.bodies[f['name']] = f['body']; self.kinds[f['name']] = 'sync'
+            for b in f['build']:
+                if b[0] == 'use': fn = decs[b[1]](fn)
+                elif b[0] == 'wraps': fn = foreign(b[1], True)(fn)
+                elif b[0] == 'plain': fn = foreign(b[1], False)(fn)
+                elif b[0] == 'chain': fn = deal.chain(*[decs[c] for c in b[1]])(fn)
+                else: raise ValueError(b)
+            self.funcs[f['name']] = fn
+
+    def answer(self, q):
+        import deal.introspection as di
+        kind, name = q
+        f = self.funcs[name]
+        if kind == 'contracts':
+            out = []
+            for r in di.get_contracts(f):
+                w = r._patcher if isinstance(r, di.Has) else r._wrapped
+                out.append(f'{type(r).__name__.lower()}:{self.cid_of.get(id(w), "?")}')
+            return f'Q contracts {name} ' + ','.join(out)
+        u = di.unwrap(f)
+        nm = getattr(u, '__name__', '?')
+        return f'Q unwrap {name} ' + (nm if nm in self.bodies and getattr(u, '__wrapped__', None) is None and nm != 'inner' else ('foreign' if nm == 'inner' or hasattr(u, '__wrapped__') else nm))
+
     # ----- observations -----
     def rel(self, x):
         if x is None: return '-'
@@ -400,6 +462,9 @@ def run_one(sc):
     w = World()
     sys.stdout, sys.stderr = SINK_OUT, SINK_ERR
     try:
+        if 'contracts' in sc:
+            w.define_obj(sc)
+            return '|'.join([w.drive(sc)] + [w.answer(q) for q in sc.get('queries', [])])
         w.define(sc)
         return w.drive(sc)
     except BaseException as e:
